@@ -576,6 +576,17 @@ def worker(case: Dict[str, Any]) -> CaseResult:
                             call(kind, objs, name)
                             got_ = server.captured[n1:]
                             return json.dumps({"q": got_[0].get("query"), "v": got_[0].get("variables")}, sort_keys=True, default=str) if len(got_) == 1 else "requests=%d" % len(got_)
+                        if ei % 2 == 1:
+                            # an operation that FAILS while it is being built (a sibling that is not a field object: a builder method the caller forgot to call)
+                            # is part of the history too: the field objects converted before the failure must not carry anything over
+                            n_bad = len(server.captured)
+                            try:
+                                call(kind, [f[0] for f in fields] + [getattr(type(fields[0][0]), "alias", len)], "Bad%d" % ei)
+                            except BaseException:  # noqa: BLE001
+                                pass
+                            count("failed_operations_in_history")
+                            if len(server.captured) != n_bad:
+                                count("failed_operations_that_sent_a_request")
                         reused_doc = send([extra_used[0][0]] + [f[0] for f in reversed(fields)], "Re%d" % ei)
                         fresh_doc = send([extra_fresh[0][0]] + [f[0] for f in reversed(fresh_fields)], "Re%d" % ei)
                         count("object_reuse_comparisons")
